@@ -72,6 +72,8 @@ package lnwallet
 //@           retn(UpdateCommitment, 1) == nil && lc.currentHeight == wrap(old(lc.currentHeight) + 1, 64)
 //@   site call generateRevocation: assert arg(height) == lc.currentHeight && lc.currentHeight == old(lc.currentHeight)
 //@   site call toDiskCommit: assert arg(0) == ret(tail, 1) && lc.currentHeight == wrap(old(lc.currentHeight) + 1, 64)
+//@   site call tail nth 1: assert called(advanceTail) && arg(0) == lc.commitChains.Local
+//@   site call advanceTail: assert arg(0) == lc.commitChains.Local && retn(generateRevocation, 1) == nil
 //@   site call UpdateCommitment: assert arg(1) == ret(toDiskCommit) && arg(0) == lc.channelState &&
 //@        lc.currentHeight == wrap(old(lc.currentHeight) + 1, 64)
 //@
@@ -101,3 +103,29 @@ package lnwallet
 //@   site call advanceTail: assert ret(AdvanceCommitChainTail) == nil
 //@   site call compactLogs: assert ret(AdvanceCommitChainTail) == nil
 //@   site return nil: assert ret(AdvanceCommitChainTail) == nil && result0 == ret(NewFwdPkg) && ret(AddNextEntry) == nil && ret(IsEqual)
+//@
+//@ func (lc *LightningChannel) SignNextCommitment
+//@   props C02
+//@   loop * havoc
+//@   ensures result1 != nil ==> result0 == nil
+//@   site call createCommitDiff: assert arg(newCommit) == newCommitView && arg(commitSig) == sig && arg(htlcSigs) == htlcSigs
+//@   site call AppendRemoteCommitChain: assert arg(1) == retn(createCommitDiff, 0) && retn(createCommitDiff, 1) == nil &&
+//@        arg(0) == lc.channelState
+//@   site call addCommitment: assert ret(AppendRemoteCommitChain) == nil && arg(1) == newCommitView
+//@   site return nil: assert ret(AppendRemoteCommitChain) == nil
+//@   site store CommitSigs.CommitSig: assert ret(AppendRemoteCommitChain) == nil && value == sig
+//@   site store CommitSigs.HtlcSigs: assert ret(AppendRemoteCommitChain) == nil && value == htlcSigs
+//@
+//@ func (lc *LightningChannel) ReceiveNewCommitment
+//@   props C02
+//@   loop 0 invariant 0 <= i && i <= len(verifyJobs)
+//@   loop 0 step htlcErr == nil && i == prev(i) + 1
+//@   site call Verify: assert arg(0) == retn(ToSignature, 0) && retn(ToSignature, 1) == nil &&
+//@        arg(1) == retn(CalcWitnessSigHash, 0) && retn(CalcWitnessSigHash, 1) == nil &&
+//@        arg(2) == lc.channelState.RemoteChanCfg.MultiSigKey.PubKey
+//@   site call ToSignature: assert arg(0) == addr(commitSigs.CommitSig)
+//@   site call CalcWitnessSigHash: assert arg(3) == localCommitmentView.txn
+//@   site call VerifyCommitSig: assert arg(1) == localCommitmentView.txn
+//@   site call addCommitment as view: assert arg(1) == localCommitmentView && retn(fetchCommitmentView, 1) == nil
+//@   site call addCommitment as commitsig: assert retn(VerifyCommitSig, 1) == nil || ret(Verify)
+//@   site call addCommitment as htlcsigs: assert i == len(verifyJobs)
